@@ -61,6 +61,7 @@ type Property struct {
 	NonTrivial func(ep *Episode) bool
 	Rule       string
 	Standalone func(t *testing.T, p *Property) // properties with their own episode loop (C04 layer Q, ...)
+	NoRerun    bool                            // violations cannot be re-run in the same process (race reports are deduplicated by the detector)
 }
 
 var properties = map[string]*Property{}
@@ -246,7 +247,11 @@ func exploreMain(p *Property) {
 				seenC[v.Clause] = true
 				sum.Extra["clause:"+v.Clause]++
 			}
+			if v.Clause == "C19.a" {
+				sum.Extra["race:"+v.Msg]++
+			}
 		}
+		sum.Extra["harness_only_race_reports"] += ep.HarnessRaces
 		if *fCensus {
 			continue
 		}
@@ -356,6 +361,18 @@ func countPreempt(tape []uint32) int {
 // handleViolation confirms, minimises, matches known findings and writes the replay file.
 func handleViolation(p *Property, ep *Episode, seed uint64, v Viol, sum *Summary) ViolOut {
 	cfg, prog, tape := ep.Cfg, ep.Prog, ep.Res.Tape
+	if p.NoRerun {
+		known := matchKnown(p, ep, v)
+		rf := &ReplayFile{Property: p.ID, Clause: v.Clause, Msg: v.Msg, Seed: seed, Cfg: cfg, Prog: prog, Tape: tape, Steps: ep.Res.Steps, Known: known,
+			OrigOps: countOps(prog), Ops: countOps(prog), Preempts: countPreempt(tape), Trace: append(renderTrace(ep), ep.RaceTexts...)}
+		name := fmt.Sprintf("%s-%s-%d.json", p.ID, strings.ReplaceAll(v.Clause, ".", "_"), seed)
+		if known != "" {
+			name = "known-" + name
+		}
+		path := filepath.Join(*fRepDir, name)
+		writeJSON(path, rf)
+		return ViolOut{Clause: v.Clause, Msg: v.Msg, Seed: seed, Replay: path, Known: known}
+	}
 	// 1. confirm: the recorded tape must reproduce the same clause
 	ep2 := runEpisode(p, cfg, prog, seed, tape, true)
 	v2 := p.firstOwned(ep2.Viols)
